@@ -292,6 +292,58 @@ func runC19(em *vEmitter, r *vRng) {
 		os.RemoveAll(root)
 	}
 
+	// ---- (1c) entries that pass the eligibility test but cannot be started (a dangling symbolic link, a
+	// script whose interpreter does not exist, a file that is no program) among good hooks: every good
+	// hook is started all the same, whatever the listing order
+	for di := 0; di < 3; di++ {
+		root, _ := os.MkdirTemp("", "verif-c19u-")
+		hd := filepath.Join(root, "hooks")
+		os.Mkdir(hd, 0755)
+		log := filepath.Join(root, "log")
+		var good []string
+		for k := 0; k < 9; k++ {
+			switch k % 3 {
+			case 1:
+				n := fmt.Sprintf("bad%d", k)
+				switch (k/3 + di) % 3 {
+				case 0:
+					os.Symlink(filepath.Join(root, "does-not-exist"), filepath.Join(hd, n))
+				case 1:
+					os.WriteFile(filepath.Join(hd, n), []byte("#!/nonexistent/interpreter\nexit 0\n"), 0755)
+				case 2:
+					os.WriteFile(filepath.Join(hd, n), []byte{0x7f, 'E', 'L', 'F', 0, 0, 0, 0}, 0755)
+				}
+			default:
+				n := fmt.Sprintf("good%d", k)
+				c19Hook(hd, n, 0755, log)
+				good = append(good, n)
+			}
+		}
+		h := c19Caller(hd, "/store/A", rate)
+		h.Notify <- true
+		time.Sleep(rate + 300*time.Millisecond)
+		started := map[string]bool{}
+		for _, l := range c19ReadLog(log) {
+			if f := strings.Split(l, "|"); len(f) > 1 {
+				started[f[1]] = true
+			}
+		}
+		var missing []string
+		for _, g := range good {
+			if !started[g] {
+				missing = append(missing, g)
+			}
+		}
+		c := vCase{Prop: "C19", Kind: "unstartable", Class: "eligibility/unstartable-entries-among-good-hooks", Nontrivial: true,
+			Human: map[string]interface{}{"good_hooks": good, "not_started": missing}}
+		if len(missing) > 0 {
+			c.Violation = fmt.Sprintf("after a change notification %d of %d eligible hooks were never started (%v): the directory also holds executable entries that cannot be started",
+				len(missing), len(good), missing)
+		}
+		em.emit(c)
+		os.RemoveAll(root)
+	}
+
 	// ---- (2) store switch: rounds after NewStore carry the new directory ----
 	{
 		root, _ := os.MkdirTemp("", "verif-c19-")
